@@ -84,8 +84,8 @@ def Rel.isAtom : Rel → Bool
   | .transfer .. => true
   | _ => false
 
-/-- Trees the SQL engine's tree building is shown sound on: raw trees, coherent Selects whose UNION
-branches are again such trees, and anything built from those.  Every relation the SQL engine's
+/-- Trees the SQL engine's tree building is shown sound on: raw trees, coherent Selects whose skip
+target is again such a tree and has the shape `to_payload` can compile (`Rel.compOK`), and anything built from those.  Every relation the SQL engine's
 factories return for such an input is again one (`treeBuild_sound`), so the theorems compose over
 construction histories. -/
 inductive Good (σ : Leaves) : Rel → Prop
@@ -96,9 +96,7 @@ inductive Good (σ : Leaves) : Rel → Prop
   | join (j : JoinOp) (l r : Rel) (c : Cols) : Good σ l → Good σ r → (Rel.binary (.join j) l r c).WF →
       j.pred.columnsRequired.subset (l.columns.union r.columns) = true → l.engine = r.engine →
       Good σ (.binary (.join j) l r c)
-  | sel (S : Rel) : SelOK σ S → S.engine.kind = .sql →
-      (∀ l r c, S.skipTo = .binary .chain l r c → Good σ l) →
-      (∀ l r c, S.skipTo = .binary .chain l r c → Good σ r) → Good σ S
+  | sel (S : Rel) : SelOK σ S → S.engine.kind = .sql → S.skipTo.compOK true = true → Good σ S.skipTo → Good σ S
 
 /-! ### Construction histories inside one SQL engine -/
 
